@@ -822,7 +822,8 @@ VOP(ps_shutdown)
 			if (!PsWaitFor([&]() { xt = PsTempFiles(sp); return !xt.empty() || xdone.load(); })) pto = true;
 			usleep(30000);
 			y = std::thread([&]() { try { app->DumpProgramState(); } catch (const std::exception&) {} ydone = true; });
-			if (!PsWaitFor([&]() { for (auto& t : PsTempFiles(sp)) if (xt.empty() || t != xt[0]) return true; return ydone.load(); })) pto = true;
+			// (a DumpProgramState that serialises its callers keeps Y in front of its clean-up: then there is no such file - go on)
+			PsWaitFor([&]() { for (auto& t : PsTempFiles(sp)) if (xt.empty() || t != xt[0]) return true; return ydone.load(); }, 1500);
 			usleep(30000);
 		}
 		x.join(); y.join();
